@@ -17,6 +17,7 @@ chmod -R u+w "$S/fsm"
 rm -f "$S"/fsm/*_test.go
 # let both copies see the simulator runtime
 for d in repo fsm; do
+  sed -i -E 's/^go 1\.[0-9]+(\.[0-9]+)?$/go 1.23/; /^toolchain /d' "$S/$d/go.mod"   # range-over-func (rule R6)
   ( cd "$S/$d" && printf '\nrequire simrt v0.0.0\n\nreplace simrt => %s/simrt\n' "$V" >> go.mod )
 done
 printf '\nreplace github.com/looplab/fsm => %s/fsm\n' "$S" >> "$S/repo/go.mod"
